@@ -1208,22 +1208,29 @@ where
         let out = out.to_string();
         let f = f.clone();
         handles.push(std::thread::spawn(move || {
-            let mut lines: Vec<String> = vec![];
+            use std::io::Write;
+            let path = format!("{out}/trace_{t}.ndjson");
+            let file = std::fs::File::create(&path).unwrap_or_else(|e| panic!("create {path}: {e}"));
+            let mut w = std::io::BufWriter::new(file);
+            let mut count = 0usize;
             let rt = tokio::runtime::Builder::new_current_thread().enable_all().build().unwrap();
             rt.block_on(async {
                 for b in chunk.into_iter() {
                     let id = b["id"].clone();
-                    match tokio::spawn(f(b)).await {
-                        Ok(tr) => lines.extend(tr.buf),
-                        Err(e) => {
-                            lines.push(json!({"ev": "panic", "id": id, "msg": format!("{e}")}).to_string());
-                        }
+                    // events are streamed to the file behaviour by behaviour (a long run must not sit in memory)
+                    let lines = match tokio::spawn(f(b)).await {
+                        Ok(tr) => tr.buf,
+                        Err(e) => vec![json!({"ev": "panic", "id": id, "msg": format!("{e}")}).to_string()],
+                    };
+                    for l in lines.iter() {
+                        w.write_all(l.as_bytes()).unwrap();
+                        w.write_all(b"\n").unwrap();
                     }
+                    count += lines.len();
                 }
             });
-            let path = format!("{out}/trace_{t}.ndjson");
-            write_lines(&path, &lines);
-            lines.len()
+            w.flush().unwrap();
+            count
         }));
     }
     let mut total = 0;
